@@ -3753,7 +3753,11 @@ impl Interpreter {
     /// `hint` specifies preference: "number" tries valueOf first, "string" tries toString first.
     /// For Date objects with "default" hint, uses "string" per ES spec (Date.prototype[@@toPrimitive]).
     /// Throws TypeError if neither method returns a primitive value (ES2015+ spec).
-    fn coerce_to_primitive(&mut self, value: &JsValue, hint: &str) -> Result<JsValue, JsError> {
+    pub(crate) fn coerce_to_primitive(
+        &mut self,
+        value: &JsValue,
+        hint: &str,
+    ) -> Result<JsValue, JsError> {
         let obj = match value {
             JsValue::Object(obj) => obj,
             // Already primitive
